@@ -3,6 +3,7 @@
 package core
 
 import (
+	"errors"
 	"fmt"
 	"strings"
 	"testing"
@@ -28,7 +29,7 @@ type c02P struct {
 	Defects []c02Defect `json:"defects"`
 }
 
-var c02Kinds = []string{"forged", "relinked", "wrongchain", "beforetrusted", "future", "gap", "dup", "swap", "zero", "invalidfields-ok"}
+var c02Kinds = []string{"forged", "relinked", "wrongchain", "beforetrusted", "future", "gap", "dup", "swap", "zero", "invalidfields-ok", "type-soft", "type-hard-wrapped"}
 
 func TestC02(t *testing.T) {
 	r := mon.Open(t, "C02")
@@ -59,6 +60,20 @@ func TestC02(t *testing.T) {
 	r.Finish()
 }
 
+var errC02Script = errors.New("c02: scripted type-level rejection")
+
+func trusted0(kind string, chain *vh.Chain, first uint64) *vh.Header {
+	switch kind {
+	case "adjacent":
+		return chain.At(first - 1)
+	case "far":
+		return chain.At(first - 20)
+	case "above":
+		return chain.At(first + 1)
+	}
+	return nil
+}
+
 func c02Run(c *mon.Case, p c02P) {
 	c.Bubble(func() {
 		vh.SetTrustRange(p.Trust)
@@ -71,6 +86,8 @@ func c02Run(c *mon.Case, p c02P) {
 		for i := range seq {
 			seq[i] = chain.At(first + uint64(i))
 		}
+		var scriptTrusted func(*vh.Header) error
+		var scripted *vh.Header
 		for di, d := range p.Defects {
 			if d.Pos >= len(seq) {
 				continue
@@ -113,6 +130,24 @@ func c02Run(c *mon.Case, p c02P) {
 				}
 			case "zero":
 				seq[d.Pos] = nil
+			case "type-soft", "type-hard-wrapped":
+				// the type-level Verify of the predecessor (the trusted header for pos 0) rejects this element
+				// with its own *VerifyError: soft although the element may be adjacent, or hard but wrapped
+				soft := d.Kind == "type-soft"
+				script := func(*vh.Header) error {
+					ve := &header.VerifyError{Reason: errC02Script, SoftFailure: soft}
+					if soft {
+						return ve
+					}
+					return fmt.Errorf("wrapped: %w", ve)
+				}
+				if d.Pos == 0 {
+					scriptTrusted = script
+				} else if prev := seq[d.Pos-1]; prev != nil {
+					cp := *prev
+					cp.VerifyScript = script
+					seq[d.Pos-1] = &cp
+				}
 			case "invalidfields-ok": // Validate is not part of Verify: must not change the outcome by itself
 				if cur != nil {
 					v := *cur
@@ -120,6 +155,11 @@ func c02Run(c *mon.Case, p c02P) {
 					seq[d.Pos] = (&vh.Header{Chain: v.Chain, H: v.H, T: v.T, Prev: v.Prev, Nonce: v.Nonce, Signed: true, Invalid: true}).Seal()
 				}
 			}
+		}
+		if scriptTrusted != nil && trusted0(p.Trusted, chain, first) != nil {
+			cp := *trusted0(p.Trusted, chain, first)
+			cp.VerifyScript = scriptTrusted
+			scripted = &cp
 		}
 		var trusted *vh.Header
 		switch p.Trusted {
@@ -133,6 +173,9 @@ func c02Run(c *mon.Case, p c02P) {
 			trusted = chain.At(first + 1)
 		}
 
+		if scripted != nil {
+			trusted = scripted
+		}
 		in := append([]*vh.Header(nil), seq...)
 		out, err := header.VerifyRange(trusted, in)
 		c.Count("verify_range_calls", 1)
